@@ -227,10 +227,6 @@ def InfL.extrudeN (w : Where) : Nat → InfL → InfL
 /-- which side the new column enters for a pixel displacement `d` along x (repaired, D18) -/
 def sideX (d : Int) : Where := if d < 0 then .right else .left
 def sideY (d : Int) : Where := if d < 0 then .top else .bottom
-/-- the sides before the repair D18 (namespace `Old`: the code no longer exists in /repo; kept for the counterexample
-`direction_old_counterexample` only, no driver op runs it, not evidence about the current code) -/
-def Old.sideX (d : Int) : Where := if d < 0 then .left else .right
-def Old.sideY (d : Int) : Where := if d < 0 then .bottom else .top
 
 def pixel (c δ : Rat) : Int := roundHalfEven (c / δ)
 
@@ -247,9 +243,6 @@ def InfL.evolveWith (sx sy : Int → Where) (t : Rat) (L : InfL) : InfL :=
 /-- `evolve_until(t)`; `none` = `ValueError('Backwards temporal evolution is not allowed.')` -/
 def InfL.evolve (t : Rat) (L : InfL) : Option InfL :=
   if t < L.t then none else some (L.evolveWith sideX sideY t)
-
-def InfL.evolveOld (t : Rat) (L : InfL) : Option InfL :=
-  if t < L.t then none else some (L.evolveWith Old.sideX Old.sideY t)
 
 /-- a refused operation leaves the layer as it was -/
 def InfL.step (L : InfL) : Op → InfL
